@@ -637,9 +637,42 @@ def build_zip(zip_path, root, tpl, files):
     return {"/".join(f.rel): f.id for f in files}
 
 
-def make_fileset(root, tpl, time_cov=None, fs=None, **kw):
+SPELLINGS = ["abs", "abs", "abs", "abs", "abs", "abs", "rel", "rel", "dot", "updir", "dslash", "dotslash"]
+
+
+def spelled_path(root, tpl, spelling):
+    """the template as the user may write it for a local file system; every spelling but "abs",
+    "dslash", "dotslash" is relative to the working directory, which must be `root` while the
+    fileset is in use (FileSet.path makes it absolute on every access)"""
+    root = root.rstrip("/")
+    return {"abs": root + "/" + tpl.text(),
+            "rel": tpl.text(),
+            "dot": "./" + tpl.text(),
+            "updir": "../" + os.path.basename(root) + "/" + tpl.text(),
+            "dslash": root + "//" + tpl.text(),
+            "dotslash": root + "/./" + tpl.text()}[spelling]
+
+
+class in_dir:
+    """with in_dir(root): ... — chdir for relative templates, restored afterwards"""
+
+    def __init__(self, d):
+        self.d = d
+
+    def __enter__(self):
+        self.old = os.getcwd()
+        os.chdir(self.d)
+
+    def __exit__(self, *a):
+        try:
+            os.chdir(self.old)
+        except OSError:
+            os.chdir("/")
+
+
+def make_fileset(root, tpl, time_cov=None, fs=None, spelling="abs", **kw):
     from typhon.files import FileSet
-    path = tpl.text() if fs is not None else root.rstrip("/") + "/" + tpl.text()
+    path = tpl.text() if fs is not None else spelled_path(root, tpl, spelling)
     return FileSet(path, name="v", time_coverage=time_cov, fs=fs, **kw)
 
 
